@@ -34,7 +34,7 @@ RULE = ("queue differential: all op lists up to length 2 (thorough 3) over 6 pos
 
 
 def _search(ctx, outdir, dis):
-    n = 600000 if ctx.tier == "thorough" else 50000
+    n = 600000 if ctx.tier == "thorough" else 40000
     sd = ctx.run_harness("c21", n, extra=["-mode", "search"], sub="search", timeout=3000)
     if not sd:
         return
